@@ -133,6 +133,13 @@ Theorem clean_dir_complete : forall excl_name excl_path cancelled fuel s p,
 Proof. by_rm clean_dir_complete_l. Qed.
 Print Assumptions clean_dir_complete.
 
+(* the model lists a directory completely ([children]); that is faithful only if the code reads the whole directory in one
+   Readdirnames(-1) and never goes on with a partial listing (generated facts about LsFromOpenedDirectory /
+   LsWithExclusionPatterns) *)
+Theorem generated_listing_facts : ls_ok Gen.ls = true.
+Proof. vm_compute; reflexivity. Qed.
+Print Assumptions generated_listing_facts.
+
 (* the exclusion predicates of the theorems are FUNCTIONS of the patterns of the call; that is faithful only if the code
    compiles the patterns of each call afresh (generated fact: no package-level state / memo in exclusion.go) *)
 Theorem generated_exclusion_facts : ex_ok Gen.ex = true.
